@@ -692,8 +692,16 @@ class ContainerEngine:
         from nanite.rate.features import IndentationFeatures
         ds = r["data_set"]
         for c in COLS:
-            if c not in ds or digest_array(np.asarray(ds[c])) != \
-                    digest_array(np.asarray(orig[c])):
+            try:
+                got = digest_array(np.asarray(ds[c])) if c in ds else None
+            except Exception as e:
+                # e.g. a column that falls back to the (already removed)
+                # temporary measurement file
+                return make_violation(
+                    self.prop, rule, f"col-unreadable:{c}", feats,
+                    f"column {c!r} of the loaded entry cannot be read: "
+                    f"{type(e).__name__}: {str(e)[:120]}", i)
+            if got != digest_array(np.asarray(orig[c])):
                 return make_violation(
                     self.prop, rule, f"col:{c}", feats,
                     f"column {c!r} of the loaded entry differs from the "
